@@ -51,6 +51,13 @@ var reorderProfile = func() Profile {
 	return p
 }()
 
+// clusterProfile: Cluster groups among Shun'd / Desired / unsatisfiable providers (all-or-none inclusion)
+var clusterProfile = func() Profile {
+	p := plainProfile
+	p.PCluster = 0.7
+	return p
+}()
+
 // memoProfile: many memoized and fallible injectors (C07, C09)
 var memoProfile = func() Profile {
 	p := defaultProfile
@@ -288,6 +295,17 @@ func genCase(rng *rand.Rand, n int, seed int64, pf Profile) *CaseDesc {
 			p.In = append(p.In, cUnus)
 		}
 		c.Provs = append(c.Provs, p)
+	}
+	// clusters: runs of adjacent providers that are included or excluded together
+	if chance(rng, pf.PCluster) && len(c.Provs) >= 2 {
+		i := rng.Intn(len(c.Provs) - 1)
+		n := 2 + rng.Intn(2)
+		for k := i; k < i+n && k < len(c.Provs); k++ {
+			c.Provs[k].Cluster = 1
+		}
+		if j := i + n + rng.Intn(2); chance(rng, 0.3) && j+1 < len(c.Provs) {
+			c.Provs[j].Cluster, c.Provs[j+1].Cluster = 2, 2
+		}
 	}
 	// final
 	fin := &ProvDesc{Idx: L - 1, Kind: "inj"}
